@@ -56,7 +56,7 @@ def _event(tok):
 
 def _goal(case, out):
     f = case.split(" ")
-    if len(f) < 9 or f[3].startswith("-") or f[2][0] not in "gtr":
+    if len(f) < 9 or f[3].startswith("-") or f[2][0] not in "gtr" or any(x.startswith("pt=") for x in f):
         return None
     n, k, mode, root, c0, nodes, d0, trace = f[0], f[1], f[2], f[3], f[4], f[5], f[6], f[7]
     m, _, bits = mode.partition("/")
